@@ -578,7 +578,7 @@ theorem sgrRun_append (cfg : Cfg) (st : PState) (b : Bytes) (n : Nat) (evs : Lis
     intro s i h
     simp only [List.cons_append]
     unfold sgrRun at h ⊢
-    cases hs : sgrStep s c with
+    cases hs : sgrStepV cfg.sgrStrict s c with
     | rej => rw [hs] at h; cases h
     | cont s' => rw [hs] at h; exact ih s' (i + 1) h
     | fin x y btn rel => rw [hs] at h; exact h
@@ -592,7 +592,7 @@ theorem sgrRun_reject (cfg : Cfg) (st : PState) (b : Bytes) :
     intro s i h
     simp only [List.cons_append]
     unfold sgrRun at h ⊢
-    cases hs : sgrStep s c with
+    cases hs : sgrStepV cfg.sgrStrict s c with
     | rej => rfl
     | cont s' => rw [hs] at h; exact ih s' (i + 1) h
     | fin x y btn rel => rw [hs] at h; simp [sgrFinish] at h
@@ -605,7 +605,7 @@ theorem sgrRun_bound (cfg : Cfg) (st : PState) (n : Nat) (evs : List Event) (st'
   | cons c rest ih =>
     intro s i h
     unfold sgrRun at h
-    cases hs : sgrStep s c with
+    cases hs : sgrStepV cfg.sgrStrict s c with
     | rej => rw [hs] at h; cases h
     | cont s' =>
       rw [hs] at h
